@@ -6,7 +6,7 @@ package lexer
 // Checked by /verif/spokvc: every clause below is turned into verification conditions
 // over the go/ssa form of the function it is attached to.
 
-//@ props C16 C08
+//@ props C16 C08 C06 C07 C11 C15
 
 //@ ghost field Lexer.tokEnd int
 //@ ghost field Lexer.done bool
